@@ -162,9 +162,9 @@ def prove(pid, timeout=1500):
     return res
 
 
-def coq_closure(pid):
-    """the .v files Properties_<pid>.v and Extract_<pid>.v depend on (inside the development)"""
-    todo = [COQ / f'Properties_{pid}.v', COQ / f'Extract_{pid}.v']
+def coq_closure(pid, mid=None):
+    """the .v files Properties_<pid>.v and Extract_<mid>.v depend on (inside the development)"""
+    todo = [COQ / f'Properties_{pid}.v', COQ / f'Extract_{mid or pid}.v']
     seen = []
     while todo:
         f = todo.pop()
@@ -182,14 +182,14 @@ def coq_closure(pid):
     return seen
 
 
-def forbidden_scan(pid=None):
+def forbidden_scan(pid=None, mid=None):
     """no Admitted/admit/Axiom/Parameter/... in the files the property depends on
     (pid None: anywhere in the development)"""
     bad = []
     pat = re.compile(r'\b(Admitted|admit|Axiom|Axioms|Parameter|Parameters|Conjecture|Admit Obligations|'
                      r'bypass_check|Unset Guard Checking|Unset Positivity Checking|Unset Universe Checking|'
                      r'type-in-type|impredicative-set)\b')
-    files = coq_closure(pid) if pid else list(COQ.rglob('*.v'))
+    files = coq_closure(pid, mid) if pid else list(COQ.rglob('*.v'))
     for p in files:
         txt = re.sub(r'\(\*[\s\S]*?\*\)', '', p.read_text())
         for i, line in enumerate(txt.splitlines(), 1):
@@ -490,7 +490,8 @@ def run_check(P, tier, seed, replay=None):
             log(f'[{pid}] translator failed: {ex}')
 
     # 2. prove
-    bad = forbidden_scan(pid)
+    mid = getattr(P, 'MODEL_ID', pid)
+    bad = forbidden_scan(pid, mid)
     pr = prove(pid, timeout=getattr(P, 'PROVE_TIMEOUT', 1500))
     if bad:
         pr['ok'] = False
@@ -518,7 +519,7 @@ def run_check(P, tier, seed, replay=None):
     model = {}
     if getattr(P, 'HARNESS', None) is not None:
         try:
-            drv = build_driver(pid) if getattr(P, 'DRIVER', True) else None
+            drv = build_driver(mid) if getattr(P, 'DRIVER', True) else None
         except Exception as ex:   # noqa
             drv = None
             tie_broken = (tie_broken or '') + f' model driver: {ex}'
@@ -722,7 +723,7 @@ def shrink_case(P, c, ir, mr, reason, work, budget=40):
     exe, _ = build_harness(P.HARNESS['name'], P.HARNESS['sources'], P.HARNESS.get('repo_sources', ()),
                            sanitize=P.HARNESS.get('sanitize', True), extra_flags=P.HARNESS.get('flags', ()),
                            compiler=P.HARNESS.get('compiler', 'g++'), libs=P.HARNESS.get('libs', ('-lpthread',)))
-    drv = build_driver(P.ID)
+    drv = build_driver(getattr(P, 'MODEL_ID', P.ID))
     rounds = 0
     while rounds < budget:
         rounds += 1
